@@ -208,11 +208,11 @@ def parseDimensions (r : Bytes) : Res (Nat × Nat × Nat × Nat) :=
     if 1 ≤ rl ∧ 1 ≤ cl then .ok (rf, cf, rl - 1, cl - 1) else .ok (rf, cf, rf, cf)
   else .err "Len:dimensions"
 
-/-- `parse_merge_cells` reads `2 + 8·count` bytes without a length check: the slice index panics
-    when the record is shorter (ledger D31, unchecked `r[..]` reads) -/
+/-- `parse_merge_cells` reads `2 + 8·count` bytes; a record shorter than that is `XlsError::Len` (length
+    checks added by the robustness fix for ledger D31 — the pinned code slice-indexed and panicked) -/
 def parseMergeCells (r : Bytes) : Res Unit :=
-  if r.length < 2 then .panic "parse_merge_cells: read_u16"
-  else if r.length < 2 + 8 * u16At r 0 then .panic "parse_merge_cells: r[offset..]"
+  if r.length < 2 then .err "Len:merge cells"
+  else if r.length < 2 + 8 * u16At r 0 then .err "Len:merge cells"
   else .ok ()
 
 /-- `parse_formula_value` on the 8 bytes `r.data[6..14]` of a FORMULA record (at offset 6 of `r`).
@@ -244,8 +244,9 @@ structure St where
   deriving Repr
 
 /-- one arm of the worksheet `match r.typ`. (The FORMULA arm also hands `r.data[20..]` to `parse_formula`,
-    whose result only feeds the formula range; what matters here is that it slices `rgce[2..2 + cce]`
-    unchecked — a record too short for its own `cce` panics. The token decoder itself belongs to C14 and is
+    whose result only feeds the formula range: a record too short for its own `cce` makes `parse_formula`
+    return `XlsError::Len` (checked since the robustness fix), which the arm swallows into the formula text
+    "Unrecognised formula …" — the cell range is unaffected. The token decoder itself belongs to C14 and is
     assumed not to panic on the rgce the generators emit.) -/
 def step (env : Env) (st : St) (r : Rec) : Res St :=
   if r.typ = 0x0200 then
@@ -309,12 +310,9 @@ def step (env : Env) (st : St) (r : Rec) : Res St :=
       let pos := (u16At r.data 0, u16At r.data 2)
       match parseFormulaValue r.data with
       | .ok v =>
-        if r.data.length < 22 then .panic "parse_formula: read_u16(rgce)"
-        else if r.data.length < 22 + u16At r.data 20 then .panic "parse_formula: rgce[2..2 + cce]"
-        else
-          match v with
-          | some v => .ok { cells := st.cells ++ [(pos.1, pos.2, typeCached env (u16At r.data 4) v)], fmla := pos }
-          | none => .ok { st with fmla := pos }
+        match v with
+        | some v => .ok { cells := st.cells ++ [(pos.1, pos.2, typeCached env (u16At r.data 4) v)], fmla := pos }
+        | none => .ok { st with fmla := pos }
       | .err e => .err e
       | .panic s => .panic s
       | .outOfFuel => .outOfFuel
